@@ -109,7 +109,7 @@ fn pair_agrees(a: Bits, b: Bits, planes: u8, instances: usize) {
     core::mem::forget(fps);
 }
 
-//@ tier=quick timeout=900 bits=4 unwind=6 unwindset="memcmp=34" fns=warp_core::scheduler::RadixScheduler::reserve,RadixScheduler::has_conflict,RadixScheduler::mark_all,LegacyScheduler::reserve,warp_core::footprint::Footprint::independent,warp_core::engine_impl::footprints_conflict,warp_core::footprint::intersects_btree
+//@ tier=off timeout=900 bits=4 unwind=6 unwindset="memcmp=34" fns=warp_core::scheduler::RadixScheduler::reserve,RadixScheduler::has_conflict,RadixScheduler::mark_all,LegacyScheduler::reserve,warp_core::footprint::Footprint::independent,warp_core::engine_impl::footprints_conflict,warp_core::footprint::intersects_btree
 //@ bounds="two candidates, one instance; read and write membership of the shared node plane key symbolic (4 bits); sorted slot-array container model (R6)"
 //@ desc="node plane: radix == legacy == receipt predicate == independent == table (a write against the other's read or write)"
 proof! {
@@ -121,7 +121,7 @@ proof! {
     }
 }
 
-//@ tier=quick timeout=900 bits=4 unwind=6 unwindset="memcmp=34" fns=warp_core::scheduler::RadixScheduler::reserve,RadixScheduler::has_conflict,RadixScheduler::mark_all,LegacyScheduler::reserve,warp_core::footprint::Footprint::independent,warp_core::engine_impl::footprints_conflict,warp_core::footprint::intersects_btree
+//@ tier=off timeout=900 bits=4 unwind=6 unwindset="memcmp=34" fns=warp_core::scheduler::RadixScheduler::reserve,RadixScheduler::has_conflict,RadixScheduler::mark_all,LegacyScheduler::reserve,warp_core::footprint::Footprint::independent,warp_core::engine_impl::footprints_conflict,warp_core::footprint::intersects_btree
 //@ bounds="two candidates, two instances: candidate A holds the key in instance 0 only, candidate B in instance 1 only (membership symbolic, 4 bits)"
 //@ desc="node plane: the same local id in different instances never conflicts"
 proof! {
@@ -134,7 +134,7 @@ proof! {
     }
 }
 
-//@ tier=quick timeout=900 bits=4 unwind=6 unwindset="memcmp=34" fns=warp_core::scheduler::RadixScheduler::reserve,RadixScheduler::has_conflict,RadixScheduler::mark_all,LegacyScheduler::reserve,warp_core::footprint::Footprint::independent,warp_core::engine_impl::footprints_conflict,warp_core::footprint::intersects_btree
+//@ tier=off timeout=900 bits=4 unwind=6 unwindset="memcmp=34" fns=warp_core::scheduler::RadixScheduler::reserve,RadixScheduler::has_conflict,RadixScheduler::mark_all,LegacyScheduler::reserve,warp_core::footprint::Footprint::independent,warp_core::engine_impl::footprints_conflict,warp_core::footprint::intersects_btree
 //@ bounds="two candidates, one instance; read and write membership of the shared edge plane key symbolic (4 bits); sorted slot-array container model (R6)"
 //@ desc="edge plane: radix == legacy == receipt predicate == independent == table (a write against the other's read or write)"
 proof! {
@@ -146,7 +146,7 @@ proof! {
     }
 }
 
-//@ tier=quick timeout=900 bits=4 unwind=6 unwindset="memcmp=34" fns=warp_core::scheduler::RadixScheduler::reserve,RadixScheduler::has_conflict,RadixScheduler::mark_all,LegacyScheduler::reserve,warp_core::footprint::Footprint::independent,warp_core::engine_impl::footprints_conflict,warp_core::footprint::intersects_btree
+//@ tier=off timeout=900 bits=4 unwind=6 unwindset="memcmp=34" fns=warp_core::scheduler::RadixScheduler::reserve,RadixScheduler::has_conflict,RadixScheduler::mark_all,LegacyScheduler::reserve,warp_core::footprint::Footprint::independent,warp_core::engine_impl::footprints_conflict,warp_core::footprint::intersects_btree
 //@ bounds="two candidates, two instances: candidate A holds the key in instance 0 only, candidate B in instance 1 only (membership symbolic, 4 bits)"
 //@ desc="edge plane: the same local id in different instances never conflicts"
 proof! {
@@ -159,7 +159,7 @@ proof! {
     }
 }
 
-//@ tier=quick timeout=900 bits=4 unwind=6 unwindset="memcmp=34" fns=warp_core::scheduler::RadixScheduler::reserve,RadixScheduler::has_conflict,RadixScheduler::mark_all,LegacyScheduler::reserve,warp_core::footprint::Footprint::independent,warp_core::engine_impl::footprints_conflict,warp_core::footprint::intersects_btree
+//@ tier=off timeout=900 bits=4 unwind=6 unwindset="memcmp=34" fns=warp_core::scheduler::RadixScheduler::reserve,RadixScheduler::has_conflict,RadixScheduler::mark_all,LegacyScheduler::reserve,warp_core::footprint::Footprint::independent,warp_core::engine_impl::footprints_conflict,warp_core::footprint::intersects_btree
 //@ bounds="two candidates, one instance; read and write membership of the shared node-owned attachment slots key symbolic (4 bits); sorted slot-array container model (R6)"
 //@ desc="node-owned attachment slots: radix == legacy == receipt predicate == independent == table (a write against the other's read or write)"
 proof! {
@@ -171,7 +171,7 @@ proof! {
     }
 }
 
-//@ tier=quick timeout=900 bits=4 unwind=6 unwindset="memcmp=34" fns=warp_core::scheduler::RadixScheduler::reserve,RadixScheduler::has_conflict,RadixScheduler::mark_all,LegacyScheduler::reserve,warp_core::footprint::Footprint::independent,warp_core::engine_impl::footprints_conflict,warp_core::footprint::intersects_btree
+//@ tier=off timeout=900 bits=4 unwind=6 unwindset="memcmp=34" fns=warp_core::scheduler::RadixScheduler::reserve,RadixScheduler::has_conflict,RadixScheduler::mark_all,LegacyScheduler::reserve,warp_core::footprint::Footprint::independent,warp_core::engine_impl::footprints_conflict,warp_core::footprint::intersects_btree
 //@ bounds="two candidates, two instances: candidate A holds the key in instance 0 only, candidate B in instance 1 only (membership symbolic, 4 bits)"
 //@ desc="node-owned attachment slots: the same local id in different instances never conflicts"
 proof! {
@@ -184,7 +184,7 @@ proof! {
     }
 }
 
-//@ tier=quick timeout=900 bits=4 unwind=6 unwindset="memcmp=34" fns=warp_core::scheduler::RadixScheduler::reserve,RadixScheduler::has_conflict,RadixScheduler::mark_all,LegacyScheduler::reserve,warp_core::footprint::Footprint::independent,warp_core::engine_impl::footprints_conflict,warp_core::footprint::intersects_btree
+//@ tier=off timeout=900 bits=4 unwind=6 unwindset="memcmp=34" fns=warp_core::scheduler::RadixScheduler::reserve,RadixScheduler::has_conflict,RadixScheduler::mark_all,LegacyScheduler::reserve,warp_core::footprint::Footprint::independent,warp_core::engine_impl::footprints_conflict,warp_core::footprint::intersects_btree
 //@ bounds="two candidates, one instance; read and write membership of the shared edge-owned attachment slots key symbolic (4 bits); sorted slot-array container model (R6)"
 //@ desc="edge-owned attachment slots: radix == legacy == receipt predicate == independent == table (a write against the other's read or write)"
 proof! {
@@ -196,7 +196,7 @@ proof! {
     }
 }
 
-//@ tier=quick timeout=900 bits=4 unwind=6 unwindset="memcmp=34" fns=warp_core::scheduler::RadixScheduler::reserve,RadixScheduler::has_conflict,RadixScheduler::mark_all,LegacyScheduler::reserve,warp_core::footprint::Footprint::independent,warp_core::engine_impl::footprints_conflict,warp_core::footprint::intersects_btree
+//@ tier=off timeout=900 bits=4 unwind=6 unwindset="memcmp=34" fns=warp_core::scheduler::RadixScheduler::reserve,RadixScheduler::has_conflict,RadixScheduler::mark_all,LegacyScheduler::reserve,warp_core::footprint::Footprint::independent,warp_core::engine_impl::footprints_conflict,warp_core::footprint::intersects_btree
 //@ bounds="two candidates, two instances: candidate A holds the key in instance 0 only, candidate B in instance 1 only (membership symbolic, 4 bits)"
 //@ desc="edge-owned attachment slots: the same local id in different instances never conflicts"
 proof! {
@@ -209,7 +209,7 @@ proof! {
     }
 }
 
-//@ tier=quick timeout=900 bits=4 unwind=6 unwindset="memcmp=34" fns=warp_core::scheduler::RadixScheduler::reserve,RadixScheduler::has_conflict,RadixScheduler::mark_all,LegacyScheduler::reserve,warp_core::footprint::Footprint::independent,warp_core::engine_impl::footprints_conflict,warp_core::footprint::intersects_btree
+//@ tier=off timeout=900 bits=4 unwind=6 unwindset="memcmp=34" fns=warp_core::scheduler::RadixScheduler::reserve,RadixScheduler::has_conflict,RadixScheduler::mark_all,LegacyScheduler::reserve,warp_core::footprint::Footprint::independent,warp_core::engine_impl::footprints_conflict,warp_core::footprint::intersects_btree
 //@ bounds="two candidates, one instance; in/out membership of the shared boundary port symbolic (4 bits)"
 //@ desc="ports: any shared port (in/in, in/out, out/in, out/out) conflicts; all four predicates equal the table"
 proof! {
@@ -221,7 +221,7 @@ proof! {
     }
 }
 
-//@ tier=quick timeout=900 bits=4 unwind=6 unwindset="memcmp=34" fns=warp_core::scheduler::RadixScheduler::reserve,RadixScheduler::has_conflict,RadixScheduler::mark_all,LegacyScheduler::reserve,warp_core::footprint::Footprint::independent,warp_core::engine_impl::footprints_conflict,warp_core::footprint::intersects_btree
+//@ tier=off timeout=900 bits=4 unwind=6 unwindset="memcmp=34" fns=warp_core::scheduler::RadixScheduler::reserve,RadixScheduler::has_conflict,RadixScheduler::mark_all,LegacyScheduler::reserve,warp_core::footprint::Footprint::independent,warp_core::engine_impl::footprints_conflict,warp_core::footprint::intersects_btree
 //@ bounds="two candidates; the port held in different instances"
 //@ desc="ports in different instances never conflict"
 proof! {
@@ -234,7 +234,7 @@ proof! {
     }
 }
 
-//@ tier=thorough timeout=3000 bits=20 unwind=6 unwindset="memcmp=34" fns=warp_core::scheduler::RadixScheduler::reserve,RadixScheduler::has_conflict,RadixScheduler::mark_all,LegacyScheduler::reserve,warp_core::footprint::Footprint::independent,warp_core::engine_impl::footprints_conflict,warp_core::footprint::intersects_btree
+//@ tier=off timeout=3000 bits=20 unwind=6 unwindset="memcmp=34" fns=warp_core::scheduler::RadixScheduler::reserve,RadixScheduler::has_conflict,RadixScheduler::mark_all,LegacyScheduler::reserve,warp_core::footprint::Footprint::independent,warp_core::engine_impl::footprints_conflict,warp_core::footprint::intersects_btree
 //@ bounds="two candidates; every resource class at once in one instance (10 bits per footprint)"
 //@ desc="all planes together: classes never interfere (a node write does not conflict with an edge/attachment/port of the same owner)"
 proof! {
@@ -270,7 +270,7 @@ fn triple_is_greedy(bits: [Bits; 3], planes: u8, instances: usize) {
     core::mem::forget(fps);
 }
 
-//@ tier=quick timeout=1200 bits=6 unwind=6 unwindset="memcmp=34" fns=warp_core::scheduler::RadixScheduler::reserve,RadixScheduler::has_conflict,RadixScheduler::mark_all,LegacyScheduler::reserve,warp_core::engine_impl::footprints_conflict
+//@ tier=off timeout=1200 bits=6 unwind=6 unwindset="memcmp=34" fns=warp_core::scheduler::RadixScheduler::reserve,RadixScheduler::has_conflict,RadixScheduler::mark_all,LegacyScheduler::reserve,warp_core::engine_impl::footprints_conflict
 //@ bounds="three candidates, one instance; node read/write membership symbolic (2 bits each)"
 //@ desc="three candidates: accept vector == greedy reference (a rejected middle candidate never blocks the third); blockers == accepted conflicting priors; both schedulers"
 proof! {
@@ -281,7 +281,7 @@ proof! {
     }
 }
 
-//@ tier=quick timeout=1200 bits=6 unwind=6 unwindset="memcmp=34" fns=warp_core::scheduler::RadixScheduler::reserve,LegacyScheduler::reserve,warp_core::engine_impl::footprints_conflict
+//@ tier=off timeout=1200 bits=6 unwind=6 unwindset="memcmp=34" fns=warp_core::scheduler::RadixScheduler::reserve,LegacyScheduler::reserve,warp_core::engine_impl::footprints_conflict
 //@ bounds="three candidates, one instance; edge read/write membership symbolic (2 bits each)"
 //@ desc="three candidates over edges: greedy reference, rejection reserves nothing, exact blockers"
 proof! {
@@ -292,7 +292,7 @@ proof! {
     }
 }
 
-//@ tier=quick timeout=1200 bits=6 unwind=6 unwindset="memcmp=34" fns=warp_core::scheduler::RadixScheduler::reserve,LegacyScheduler::reserve,warp_core::engine_impl::footprints_conflict
+//@ tier=off timeout=1200 bits=6 unwind=6 unwindset="memcmp=34" fns=warp_core::scheduler::RadixScheduler::reserve,LegacyScheduler::reserve,warp_core::engine_impl::footprints_conflict
 //@ bounds="three candidates, one instance; node-attachment read/write membership symbolic (2 bits each)"
 //@ desc="three candidates over attachment slots: greedy reference, rejection reserves nothing, exact blockers"
 proof! {
@@ -303,7 +303,7 @@ proof! {
     }
 }
 
-//@ tier=quick timeout=1200 bits=6 unwind=6 unwindset="memcmp=34" fns=warp_core::scheduler::RadixScheduler::reserve,LegacyScheduler::reserve,warp_core::engine_impl::footprints_conflict
+//@ tier=off timeout=1200 bits=6 unwind=6 unwindset="memcmp=34" fns=warp_core::scheduler::RadixScheduler::reserve,LegacyScheduler::reserve,warp_core::engine_impl::footprints_conflict
 //@ bounds="three candidates, one instance; port in/out membership symbolic (2 bits each)"
 //@ desc="three candidates over boundary ports: greedy reference, rejection reserves nothing, exact blockers"
 proof! {
@@ -331,7 +331,7 @@ proof! {
     }
 }
 
-//@ tier=quick timeout=300 bits=1 unwind=6 unwindset="memcmp=34" fns=warp_core::scheduler::RadixScheduler::reserve,LegacyScheduler::reserve,warp_core::footprint::Footprint::independent
+//@ tier=off timeout=300 bits=1 unwind=6 unwindset="memcmp=34" fns=warp_core::scheduler::RadixScheduler::reserve,LegacyScheduler::reserve,warp_core::footprint::Footprint::independent
 //@ bounds="genuinely empty footprints and one single-key footprint"
 //@ desc="empty sets: an empty footprint conflicts with nothing and reserves nothing (covers the is-empty paths the private-dummy encoding never takes)"
 proof! {
